@@ -84,13 +84,15 @@ def graph(E, objs_list, V, C, ctx):
         if len(V) > 6:
             return anc, chi
     # both ends
+    # (an end that belongs to an object outside the system - disconnected by an edit - is not walked: only edges whose two ends
+    # are values of the system's objects are compared)
     for vid, As in anc.items():
         for a in As:
-            if vid not in chi.get(a, set()):
+            if a in chi and vid not in chi[a]:
                 V.append({"kind": "dependency listed on the dependent's end only (ancestor does not list it as child)", "value": vid, "ancestor": a, **ctx})
     for vid, Cs in chi.items():
         for c in Cs:
-            if vid not in anc.get(c, set()):
+            if c in anc and vid not in anc[c]:
                 V.append({"kind": "dependency listed on the ancestor's end only (child does not list it as ancestor)", "value": vid, "child": c, **ctx})
     # cycles (id level)
     state = {}
